@@ -133,6 +133,11 @@ type reqSpec struct {
 
 var sizes = []int{0, 1, 100, 3000, 65535, 65536, 65537, 70000, 200000}
 
+// -part c09: the cells serve mostly files and in-memory content through Response.ReadFrom (the Sendfile branch where the
+// connection allows it), on the plain and on the TLS listener; findings are attributed to C09 (the response on the wire is
+// not the well-formed response the handler produced)
+var c09Mode bool
+
 func genConn(r *rand.Rand) []reqSpec {
 	depth := 1 + r.Intn(5)
 	var rs []reqSpec
@@ -143,6 +148,9 @@ func genConn(r *rand.Rand) []reqSpec {
 		}
 		if r.Intn(3) == 0 {
 			s.D = 1 + r.Intn(8)
+		}
+		if c09Mode {
+			s.M = []string{"sf", "sc", "sf", "sc", "cl", "multi", "one"}[r.Intn(7)]
 		}
 		last := i == depth-1
 		if last {
@@ -307,6 +315,9 @@ func runCell(rep *hx.Report, r *rand.Rand, iomod int, emode int, nconn, ntls int
 				rep.Stat("timeout-finding-not-reproduced." + f.Signature)
 				continue
 			}
+		}
+		if c09Mode {
+			f.Property = "C09"
 		}
 		rep.Add(f)
 	}
@@ -942,7 +953,7 @@ func main() {
 	_ = flag.String("model", "", "")
 	out := flag.String("out", "-", "")
 	full := flag.Bool("full", false, "full matrix (9 cells) per round instead of 3 rotating cells")
-	part := flag.String("part", "", "c08: only the engine-level part of property C08 (a parse error ends the connection)")
+	part := flag.String("part", "", "c08: only the engine-level part of property C08 (a parse error ends the connection); c09: served-content cells attributed to C09")
 	only := flag.Int("cell", -1, "run only this cell (0..8 = iomod*3+epoll mode), every round")
 	flag.Parse()
 	logging.SetLogger(quiet{})
@@ -954,6 +965,16 @@ func main() {
 	if *part == "c08" {
 		rep.Rule = "engine level: per IOMod x {plain, TLS 1.2, TLS 1.3} x kind of malformed input: an answered request, malformed bytes, then a well-formed request in a separate write; the request behind the error must never reach the handler and the server must close the connection"
 		parseErrorCloses(rep)
+		rep.Write(*out)
+		return
+	}
+	if *part == "c09" {
+		c09Mode = true
+		rep.Rule = "end to end, framing of served content: per IOMod one cell (rotating epoll modes) with 4 plain and 8 TLS raw pipelining connections whose handlers serve files (io.CopyN from an *os.File with Content-Length: Response.ReadFrom, Sendfile branch where the connection allows it), http.ServeContent over memory, and ordinary writes; independent decoders: net/http's ReadResponse over TCP and over crypto/tls"
+		r := rand.New(rand.NewSource(*seed))
+		for k, m := range []int{nbhttp.IOModNonBlocking, nbhttp.IOModBlocking, nbhttp.IOModMixed} {
+			runCell(rep, r, m, (k+int(*seed))%3, 4, 8)
+		}
 		rep.Write(*out)
 		return
 	}
